@@ -4,7 +4,7 @@
         byte string v, and the UTF-16 code units of
         new TextDecoder().decode(v.slice(0, min(50, len))) observed in node
         (checks the WHATWG decoder model itself, not only the final boolean);
-     CEncode ver enc : the bytes Go's EncodeEnvelope produced for an envelope with
+     CEncode ver enc : the first 64 bytes Go's EncodeEnvelope produced for an envelope with
         Version = ver (checks the one guarantee assumed about encoding/json:
         the output starts with the kfs_lfs member followed by the bucket member). *)
 From KS Require Import lib.Base lib.Strings model.Envelope.
